@@ -231,6 +231,11 @@ def gen(repo):
             r"Ok\(Err\(\w+\)\)\s*=>\s*\{\s*return\s+Err\(",
             r"Err\(_\)\s*=>\s*\{\s*return\s+Err\("))
         guards.append(("%s_watchdog_every_ending_is_an_error" % tname, arms, "crates/%s/src/lib.rs run(): all three handle.join() arms return Err" % tname))
+    # swarm.rs clean phase 2: a torrent is only dropped as empty when nobody else holds its Arc
+    udp_swarm = strip_comments(read(repo, "crates/udp/src/swarm.rs"))
+    guards.append(("udp_clean_keeps_shared_arc",
+                   re.search(r"if\s+let\s+Some\(peer_map\)\s*=\s*Arc::get_mut\(peer_map\)\s*\{\s*if\s+peer_map\.read\(\)\.is_empty\(\)\s*\{\s*return\s+false;", udp_swarm) is not None,
+                   "crates/udp/src/swarm.rs clean_and_get_statistics phase 2 (Arc::get_mut guard)"))
     for name, val, src in guards:
         out.append("(* %s *)" % src)
         out.append("Definition %s : bool := %s." % (name, "true" if val else "false"))
